@@ -700,4 +700,48 @@ example : inRangeO (iterLongerDuration (lkFamilyPrefix false 9 [[112, 47, 49]]) 
     (iterLongerDuration (lkFamilyPrefix false 9 [[112, 47, 49]]) 0).2
     (lockRefStoreKey false (combineKeys [[9], [112, 47, 49], lkDurationKey 5]) 7) = true := by decide
 
+/-! ## x/dymns store keys -/
+
+/-- C19 "names one and only one object" for the DymNS store: the map from (family, component) to
+    store key is injective — each key family is injective in its component AND no key of one family
+    is a key of another, for all component values (all byte strings, including empty ones) -/
+theorem dymns_key_injective (a b : DymnsKey) (h : a.bytes = b.bytes) : a = b := by
+  rcases a with _ | _ | _ | _ | ⟨_, _ | _⟩ | _ | _ | _ | _ | _ | _ | _ <;> rcases b with _ | _ | _ | _ | ⟨_, _ | _⟩ | _ | _ | _ | _ | _ | _ | _ <;>
+    simp_all [DymnsKey.bytes, dymNameKey, dymNamesOwnedByAccountRvlKey,
+      configuredAddressToDymNamesIncludeRvlKey, fallbackAddressToDymNamesIncludeRvlKey, sellOrderKey,
+      keyCountBuyOrders, buyOrderKey, buyerToOrderIdsRvlKey, dymNameToBuyOrderIdsRvlKey,
+      aliasToBuyOrderIdsRvlKey, rollAppIdToAliasesKey, aliasToRollAppIdRvlKey]
+
+/-- every key carries its family's prefix … -/
+theorem dymns_key_has_family_prefix (a : DymnsKey) : isPrefix a.familyPrefix a.bytes = true := by
+  rcases a with _ | _ | _ | _ | ⟨_, _ | _⟩ | _ | _ | _ | _ | _ | _ | _ <;>
+    simp [DymnsKey.familyPrefix, DymnsKey.bytes, isPrefix, dymNameKey, dymNamesOwnedByAccountRvlKey,
+      configuredAddressToDymNamesIncludeRvlKey, fallbackAddressToDymNamesIncludeRvlKey, sellOrderKey,
+      keyCountBuyOrders, buyOrderKey, buyerToOrderIdsRvlKey, dymNameToBuyOrderIdsRvlKey,
+      aliasToBuyOrderIdsRvlKey, rollAppIdToAliasesKey, aliasToRollAppIdRvlKey]
+
+/-- … and a whole-family iteration (prefix scan with a family's `KeyPrefix…`) never returns a key of
+    another family: the family prefixes are pairwise prefix-free -/
+theorem dymns_family_scan_exact (a b : DymnsKey) (h : isPrefix a.familyPrefix b.bytes = true) :
+    a.family = b.family := by
+  rcases a with _ | _ | _ | _ | ⟨_, _ | _⟩ | _ | _ | _ | _ | _ | _ | _ <;> rcases b with _ | _ | _ | _ | ⟨_, _ | _⟩ | _ | _ | _ | _ | _ | _ | _ <;>
+    simp_all [DymnsKey.bytes, DymnsKey.familyPrefix, DymnsKey.family, isPrefix, dymNameKey, dymNamesOwnedByAccountRvlKey,
+      configuredAddressToDymNamesIncludeRvlKey, fallbackAddressToDymNamesIncludeRvlKey, sellOrderKey,
+      keyCountBuyOrders, buyOrderKey, buyerToOrderIdsRvlKey, dymNameToBuyOrderIdsRvlKey,
+      aliasToBuyOrderIdsRvlKey, rollAppIdToAliasesKey, aliasToRollAppIdRvlKey]
+
+/-- buy-order records: distinct (type, number) pairs get distinct store keys (id creation composed
+    with `BuyOrderKey`) -/
+theorem dymns_buy_order_key_injective (t t' : AssetType) (n n' : Nat) (i i' : Bytes)
+    (h : createBuyOrderId t n = some i) (h' : createBuyOrderId t' n' = some i')
+    (e : buyOrderKey i = buyOrderKey i') : t = t' ∧ n = n' := by
+  have : i = i' := by simpa [buyOrderKey] using e
+  subst this
+  exact buy_order_id_injective t t' n n' i h h'
+
+-- non-vacuity (dymns): a Dym-Name "a" and an alias "a" have different sell-order keys; the empty
+-- component is allowed
+example : (DymnsKey.sellOrder [97] .name).bytes ≠ (DymnsKey.sellOrder [97] .alias).bytes := by decide
+example : (DymnsKey.dymName []).bytes = [1] := rfl
+
 end DymVerif.C19
